@@ -314,11 +314,17 @@ pub fn rng_clone_light() {
 #[kani::proof]
 #[kani::unwind(18)]
 pub fn buffer_is_function_of_core() {
+    let blk: usize = kani::any();
+    kani::assume(blk < 64);
+    buffer_at(blk);
+}
+
+/// One block position (concrete in the `buf::b<blk>` harnesses, so that only
+/// the h-table lookups have symbolic indices; the table contents are arbitrary).
+fn buffer_at(blk: usize) {
     let t0: [u32; 1024] = kani::any();
     let mut core = Hc128Core::verif_zeroed();
     *core.verif_t_mut() = t0;
-    let blk: usize = kani::any();
-    kani::assume(blk < 64);
     let counter = 16 * blk;
     core.verif_set_counter(counter);
     let mut results = [0u32; 16];
@@ -337,5 +343,23 @@ pub fn buffer_is_function_of_core() {
         let h = t[(x & 0xff) as usize].wrapping_add(t[256 + ((x >> 16) & 0xff) as usize]);
         assert!(results[k] == h ^ t[512 + j]);
     }
-    kani::cover!(counter >= 512, "Q block");
+    kani::cover!(k == 15, "last word of the block");
+}
+
+/// `buffer_is_function_of_core` per concrete block 0..63 (all 64 positions of
+/// the 1024-step cycle a block can start at).
+pub mod buf {
+    macro_rules! at {
+        ($($n:ident = $b:expr),*) => {$(
+            #[kani::proof]
+            #[kani::unwind(18)]
+            pub fn $n() {
+                super::buffer_at($b);
+            }
+        )*};
+    }
+    at!(b0 = 0, b1 = 1, b2 = 2, b3 = 3, b4 = 4, b5 = 5, b6 = 6, b7 = 7, b8 = 8, b9 = 9, b10 = 10, b11 = 11, b12 = 12, b13 = 13, b14 = 14, b15 = 15,
+        b16 = 16, b17 = 17, b18 = 18, b19 = 19, b20 = 20, b21 = 21, b22 = 22, b23 = 23, b24 = 24, b25 = 25, b26 = 26, b27 = 27, b28 = 28, b29 = 29, b30 = 30, b31 = 31,
+        b32 = 32, b33 = 33, b34 = 34, b35 = 35, b36 = 36, b37 = 37, b38 = 38, b39 = 39, b40 = 40, b41 = 41, b42 = 42, b43 = 43, b44 = 44, b45 = 45, b46 = 46, b47 = 47,
+        b48 = 48, b49 = 49, b50 = 50, b51 = 51, b52 = 52, b53 = 53, b54 = 54, b55 = 55, b56 = 56, b57 = 57, b58 = 58, b59 = 59, b60 = 60, b61 = 61, b62 = 62, b63 = 63);
 }
